@@ -20,7 +20,7 @@ import os
 import re
 import shutil
 
-from .. import build, corpus, sweep
+from .. import build, corpus, sweep, c10fam
 from ..core import Inconclusive
 from ..run import run as sh, pmap, Scratch
 
@@ -286,6 +286,8 @@ def probe_part(ctx, asan, sc, items, ev):
                 ev["module_imports_hist"]["0" if kv.get("imports") == "0" else "1+"] += 1
                 if files is None:
                     ev["_repo_imports"][label] = int(kv.get("imports", 0))
+                elif label.startswith("limit cell "):
+                    ev["_limit_records"][label] = kv
                 if len(samples) < 3:
                     samples.append({"source": label, "record": line[line.index("status="):].strip()})
             elif status == "skip":
@@ -499,9 +501,11 @@ def cli_part(ctx, plain, sc, cases, ev):
     samples = []
     compared = 0
     n_repo = 0
+    by_label = ev.setdefault("_outcome_by_label", {})
     for (idx, (label, files, init_out, where)), ways, skipped in pmap(job, list(enumerate(cases))):
-        def bump(k):
+        def bump(k, label=label):
             outcomes[k] = outcomes.get(k, 0) + 1
+            by_label[label] = (by_label[label] + " " + k) if label in by_label else k
         if skipped:
             bump(skipped)
             continue
@@ -559,6 +563,122 @@ def cli_part(ctx, plain, sc, cases, ev):
     return compared, phashes
 
 
+# ------------------------------------------------------------------------------------------------ limit family
+
+def measure(asan, sc, progs, sub):
+    """compile {name: text} through the probe; -> {name: record fields} for the accepted ones"""
+    lines = []
+    names = {}
+    for name, text in sorted(progs.items()):
+        d = sc.sub("%s/%s" % (sub, name))
+        with open(os.path.join(d, "main.nano"), "w") as f:
+            f.write(text)
+        names[os.path.join(d, "main.nano")] = name
+        lines.append(os.path.join(d, "main.nano"))
+    chunks = [lines[i::8] for i in range(8) if lines[i::8]]
+    out = {}
+    for r in pmap(lambda c: _run_probe_compile(asan, c), chunks):
+        if r.timeout:
+            raise Inconclusive("codegen_probe (calibration): watchdog")
+        for line in r.text().splitlines():
+            m = REC_RE.match(line)
+            if m and m.group("path") in names and m.group("status") == "ok":
+                out[names[m.group("path")]] = _kv(m.group("rest"))
+    return out
+
+
+# ------------------------------------------------------------------------------------------------ interleave family
+
+def interleave_part(ctx, plain, sc, n, ev):
+    progs = [("interleave fixed %s" % k, t, ["fixed"]) for k, t in sorted(c10fam.FIXED_INTERLEAVE.items())]
+    for i in range(n):
+        t, kinds = c10fam.interleave_program(ctx.rng("interleave", i), i)
+        progs.append(("interleave program %d" % i, t, kinds))
+
+    def job(item):
+        idx, (label, text, kinds) = item
+        d = sc.sub("il/%05d" % idx)
+        with open(os.path.join(d, "main.nano"), "w") as f:
+            f.write(text)
+        b1 = sh([plain.nano_virt, "main.nano", "--emit-nvm", "-o", "x.nvm"], cwd=d, cpu=20)
+        if b1.timeout:
+            return item, "inconclusive:watchdog", None
+        if b1.rc != 0 or not os.path.exists(os.path.join(d, "x.nvm")):
+            return item, "skip:not-accepted", b1
+        b2 = None
+        for attempt in range(2):
+            b2 = sh([plain.nano_virt, "main.nano", "-o", "w.bin"], cwd=d, cpu=60, env={"NANO_CC": WRAPPER_CC})
+            if b2.rc == 0 and os.path.exists(os.path.join(d, "w.bin")):
+                break
+        else:
+            return item, "wrapper-build-failed", b2
+        cmds = {"run": [plain.nano_virt, "main.nano", "--run"], "nano_vm": [plain.nano_vm, "x.nvm"], "wrapper": [os.path.join(d, "w.bin")]}
+        obs = {}
+        for mode in ("pipe", "file"):
+            for name, cmd in cmds.items():
+                for attempt in range(2):
+                    if mode == "pipe":
+                        r = sh(cmd, cwd=d, cpu=20)
+                    else:
+                        r = c10fam.run_to_file(cmd, d, os.path.join(d, "%s.out" % name), os.path.join(d, "%s.err" % name), cpu=20)
+                    if not (r.timeout or r.cpu_exceeded):
+                        break
+                else:
+                    return item, "inconclusive:watchdog", None
+                obs[(mode, name)] = r
+        return item, None, obs
+
+    outcomes = {}
+    kinds_hist = {}
+    hashes = set()
+    compared = 0
+    samples = []
+    for (idx, (label, text, kinds)), skipped, obs in pmap(job, list(enumerate(progs))):
+        def bump(k):
+            outcomes[k] = outcomes.get(k, 0) + 1
+        if skipped:
+            bump(skipped)
+            if skipped == "wrapper-build-failed":
+                ctx.violation("interleave|wrapper|build-failed", "%s: `nano_virt -o` cannot produce the wrapper: %s" % (label, obs.errtext()[-500:]), {"main.nano": text})
+            continue
+        for k in kinds:
+            k = re.sub(r"\d+$", "", k)
+            kinds_hist[k] = kinds_hist.get(k, 0) + 1
+        agree = True
+        for mode in ("pipe", "file"):
+            r = obs[(mode, "run")]
+            compared += 1
+            for pair in ("nano_vm", "wrapper"):
+                o = obs[(mode, pair)]
+                c = classify(r, o, pair, None)
+                if c is None:
+                    continue
+                agree = False
+                key = "interleave|%s|%s|%s" % (pair, mode, c[0].split("|", 2)[2] if c[0].count("|") >= 2 else c[0])
+                bump(key)
+                ctx.violation(key, "%s, stdout is a %s: `nano_virt --run` vs %s: %s\nsteps: %s" % (
+                    label, mode, "`nano_vm x.nvm`" if pair == "nano_vm" else "the wrapper executable", c[1], " ".join(kinds)),
+                    {"main.nano": text, "run.stdout": r.out, "run.stderr": r.err, "run.status": "%s\n" % r.status,
+                     pair + ".stdout": o.out, pair + ".stderr": o.err, pair + ".status": "%s\n" % o.status,
+                     "cmd.txt": CMD_TXT + "# stdout redirected to a %s\n" % ("regular file" if mode == "file" else "pipe (| cat)")})
+        if agree:
+            bump("agree")
+        r = obs[("pipe", "run")]
+        vm_prints = any(k.startswith("vm") for k in kinds) or kinds == ["fixed"]
+        foreign = any(k in ("write1", "system1", "puts", "putchar") for k in kinds) or kinds == ["fixed"]
+        if vm_prints and foreign and r.out:
+            hashes.add(_phash({"main.nano": text}))
+        if len(samples) < 2 and idx in (0, 5):
+            samples.append({"program": label, "steps": kinds, "pipe_stdout_head": r.out[:160].decode("utf-8", "replace"), "exit": r.status,
+                            "same_bytes_on_pipe_and_file": r.out == obs[("file", "run")].out})
+    ev["interleave_programs"] = len(progs)
+    ev["interleave_comparisons"] = compared
+    ev["interleave_outcomes"] = outcomes
+    ev["interleave_step_kinds"] = dict(sorted(kinds_hist.items()))
+    ev["interleave_samples"] = samples
+    return compared, hashes
+
+
 # ------------------------------------------------------------------------------------------------ entry point
 
 def run(ctx):
@@ -568,7 +688,8 @@ def run(ctx):
     n_mod = ctx.n(150, 3000)
     n_cli = ctx.n(60, 600)
     n_syn = ctx.n(200, 3000)
-    ev = {"module_imports_hist": {"0": 0, "1+": 0}, "_repo_imports": {}}
+    n_il = ctx.n(40, 400)
+    ev = {"module_imports_hist": {"0": 0, "1+": 0}, "_repo_imports": {}, "_limit_records": {}}
     with Scratch("c10") as sc:
         repo = corpus.repo_sources()
         ctx.rng("repo").shuffle(repo)
@@ -597,21 +718,27 @@ def run(ctx):
         ctx.require(unprintable <= max(2, len(batch) // 100), "the generator's printer failed on %d programs" % unprintable)
         ev["generator_programs_unprintable"] = unprintable
         hand_cases = [("hand-written %s" % name, files, init_out, None) for name, (files, init_out) in sorted(hand.items())]
+        # limit family: calibrate (how many pool strings / imports / code bytes the fixed parts of a program cost), then
+        # build one program per boundary value
+        cal = measure(asan, sc, c10fam.calibration_programs(), "cal")
+        limits, limit_notes = c10fam.limit_programs(cal)
+        limit_cases = [("limit cell %s" % name, {"main.nano": text}, None, None) for name, text, _ in limits]
+        limit_expect = {"limit cell %s" % name: exp for name, _, exp in limits}
 
         # ---- (a) probe ------------------------------------------------------------------------------
         items = [(os.path.relpath(p, build.REPO), p, None) for p in repo]
-        for k, (label, files, _, _w) in enumerate(hand_cases + gen_cases):
+        for k, (label, files, _, _w) in enumerate(hand_cases + limit_cases + gen_cases):
             d = sc.sub("src/%05d" % k)
             for fn, text in files.items():
                 with open(os.path.join(d, fn), "w") as f:
                     f.write(text)
             items.append((label, os.path.join(d, "main.nano"), files))
-        items = items[: max(n_mod, len(repo) + len(hand_cases))]
+        items = items[: max(n_mod, len(repo) + len(hand_cases)) + len(limit_cases)]
         n_ok, mhashes = probe_part(ctx, asan, sc, items, ev)
         n_syn_ok, shashes = synth_part(ctx, asan, n_syn, ev)
 
         # ---- (b) CLI three-way ---------------------------------------------------------------------------
-        cases = hand_cases + gen_cases[: n_cli - len(hand_cases)]
+        cases = hand_cases + limit_cases + gen_cases[: n_cli - len(hand_cases)]
         n_own = len(cases)
         # repository programs (FFI imports, modules loaded by path: the three mains prepare those differently); they
         # run inside a copy of the repository's source trees, never in /repo
@@ -636,6 +763,30 @@ def run(ctx):
         cases = cases + repo_cases
         n_cmp, phashes = cli_part(ctx, plain, sc, cases, ev)
         n_repo_cmp = ev["three_way_repository_programs_compared"]
+        n_il_cmp, ihashes = interleave_part(ctx, plain, sc, n_il, ev)
+
+        # limit cells: what the module of each cell measured, whether it sits on the boundary it was built for
+        by_label = ev.pop("_outcome_by_label")
+        recs = ev.pop("_limit_records")
+        cells = {}
+        hit = missed = 0
+        for label, exp in limit_expect.items():
+            kv = recs.get(label)
+            name = label[len("limit cell "):]
+            if kv is None:
+                cells[name] = {"module": "not accepted by the compiler", "three_way": by_label.get(label, "?")}
+                continue
+            on = all(int(kv.get(k, -1)) == v for k, v in exp.items())
+            if exp:
+                hit += on
+                missed += not on
+            cells[name] = {"module": " ".join("%s=%s" % (k, kv.get(k)) for k in ("funcs", "strings", "imports", "maxfn", "maxlocals", "maxstr")),
+                           "on_boundary": on if exp else None, "three_way": by_label.get(label, "?")}
+        ev["limit_cells"] = cells
+        ev["limit_cells_on_boundary"] = hit
+        ev["limit_cells_off_boundary"] = missed
+        if limit_notes:
+            ev["limit_notes"] = limit_notes
 
         if not ctx.violations:
             ctx.require(n_ok >= 0.8 * len(items), "too few compiler-produced modules round-tripped (%d of %d)" % (n_ok, len(items)))
@@ -645,19 +796,26 @@ def run(ctx):
             ctx.require(ev["module_imports_hist"]["1+"] >= 5, "too few modules with an import table")
             nonzero = sum(v for k, v in ev["run_exit_status_histogram"].items() if k != "0")
             ctx.require(nonzero >= 5, "too few programs with a non-zero exit status")
+            ctx.require(hit >= 0.8 * (hit + missed) and hit >= 20, "limit family: only %d of %d cells sit on their boundary" % (hit, hit + missed))
+            c513 = cells.get("functions_512_plus_init", {})
+            ctx.require("funcs=513" in str(c513.get("module")) and "agree" in str(c513.get("three_way")),
+                        "limit family: the 513-entry function table (512 functions + __init__) was not produced and run: %s" % c513)
+            ctx.require(n_il_cmp >= 0.8 * 2 * (n_il + len(c10fam.FIXED_INTERLEAVE)), "interleave family: too few comparisons (%d)" % n_il_cmp)
+            ctx.require(ev["interleave_step_kinds"].get("system", 0) + ev["interleave_step_kinds"].get("write", 0) >= 10, "interleave family: too few foreign writers")
 
         cov = {
-            "evaluations": n_ok + n_syn_ok + n_cmp,
-            "distinct_nontrivial": len(mhashes | shashes) + len(phashes),
+            "evaluations": n_ok + n_syn_ok + n_cmp + n_il_cmp,
+            "distinct_nontrivial": len(mhashes | shashes) + len(phashes | ihashes),
             "rule": "distinct FNV-64 hashes of the serialised bytes of round-tripped modules (compiler-produced ones count only with "
                     ">= 1 function and non-empty code; synthetic ones all differ by construction of their shape/seed) + distinct "
-                    "SHA-256 hashes of the source files of programs compared three ways that print something or exit non-zero",
+                    "SHA-256 hashes of the source files of programs compared three ways that print something or exit non-zero "
+                    "(interleave programs count only with >= 1 VM print and >= 1 foreign writer on fd 1)",
             "modules_from_sources": len(items),
             "three_way_programs": len(cases),
             "three_way_repository_programs": len(repo_cases),
         }
         cov.update(ev)
-        cov["samples"] = ev["module_samples"] + ev["synthetic_samples"][:2] + ev["three_way_samples"]
+        cov["samples"] = ev["module_samples"] + ev["synthetic_samples"][:2] + ev["three_way_samples"] + ev["interleave_samples"]
         return ctx.finish(cov, assumptions=[
             "the probe drives lexer/parser/process_imports/type_check/codegen_compile exactly as src/nanovirt/main.c does and links the "
             "repository's own objects (asan flavor); the in-memory module is the one codegen_compile returned, untouched",
@@ -667,4 +825,7 @@ def run(ctx):
             "reproducible) and when their text does not mention the command line, clock, environment or files",
             "the wrapper is compiled with NANO_CC='%s' because the hook-enabled tree changes sizeof(VmState)" % WRAPPER_CC,
             "a way that dies from the same signal in all runs is not compared on stdout (buffered output is lost)",
+            "limit family: the boundary a cell sits on is MEASURED from the module the probe compiled (limit_cells), not assumed",
+            "interleave family: foreign writers are libc's write/puts/putchar and the child of system(), resolved by the runners' own FFI; "
+            "every runner is observed with stdout as a pipe and as a regular file; writes to fd 2 are present but stderr is not compared",
         ])
